@@ -523,7 +523,45 @@ pub fn get_metadata(entry: &DirEntry, follow_symlinks: bool) -> Option<Metadata>
     None
 }
 
+/// Only a regular file (or a link to one) has content to read: opening a named pipe blocks
+/// until somebody writes to it, and a device may never reach an end.
+pub fn is_regular_file(path: &Path) -> bool {
+    fs::metadata(path).map(|metadata| metadata.is_file()).unwrap_or(false)
+}
+
+/// MIME type by content; only what can be read without blocking is looked at.
+pub fn mime_from_filepath(path: &Path) -> Option<&'static str> {
+    match fs::metadata(path) {
+        Ok(metadata) if metadata.is_file() || metadata.is_dir() => tree_magic_mini::from_filepath(path),
+        _ => None,
+    }
+}
+
+/// Runs a reader of a third-party file format: a file that the format's library cannot cope
+/// with (it may panic on inconsistent data) has no value, it does not end the search.
+pub fn no_panic<T>(reader: impl FnOnce() -> T) -> Option<T> {
+    let hook = std::panic::take_hook();
+    std::panic::set_hook(Box::new(|_| {}));
+    let result = std::panic::catch_unwind(std::panic::AssertUnwindSafe(reader));
+    std::panic::set_hook(hook);
+
+    result.ok()
+}
+
+/// Opens a file whose content is going to be read, see `is_regular_file`.
+pub fn open_regular_file(path: &Path) -> io::Result<File> {
+    if !is_regular_file(path) {
+        return Err(io::Error::new(io::ErrorKind::InvalidInput, "not a regular file"));
+    }
+
+    File::open(path)
+}
+
 pub fn get_mp3_metadata(entry: &DirEntry) -> Option<MP3Metadata> {
+    if !is_regular_file(&entry.path()) {
+        return None;
+    }
+
     match mp3_metadata::read_from_file(entry.path()) {
         Ok(mp3_meta) => Some(mp3_meta),
         _ => None,
@@ -531,7 +569,7 @@ pub fn get_mp3_metadata(entry: &DirEntry) -> Option<MP3Metadata> {
 }
 
 pub fn get_exif_metadata(entry: &DirEntry) -> Option<HashMap<String, String>> {
-    if let Ok(file) = File::open(entry.path()) {
+    if let Ok(file) = open_regular_file(&entry.path()) {
         if let Ok(reader) = exif::Reader::new().read_from_container(&mut BufReader::new(&file)) {
             let mut exif_info = HashMap::new();
 
@@ -618,7 +656,7 @@ fn parse_location_string(s: String, location_ref: String, modifier_value: &str) 
 }
 
 pub fn is_shebang(path: &PathBuf) -> bool {
-    if let Ok(file) = File::open(path) {
+    if let Ok(file) = open_regular_file(path) {
         let mut buf_reader = BufReader::new(file);
         let mut buf = vec![0; 2];
         if buf_reader.read_exact(&mut buf).is_ok() {
@@ -658,7 +696,7 @@ pub fn is_hidden(file_name: &str, metadata: &Option<Metadata>, archive_mode: boo
 }
 
 pub fn get_line_count(entry: &DirEntry) -> Option<usize> {
-    if let Ok(file) = File::open(entry.path()) {
+    if let Ok(file) = open_regular_file(&entry.path()) {
         let mut reader = BufReader::with_capacity(1024 * 32, file);
         let mut count = 0;
 
@@ -686,7 +724,7 @@ pub fn get_line_count(entry: &DirEntry) -> Option<usize> {
 }
 
 pub fn get_sha1_file_hash(entry: &DirEntry) -> String {
-    if let Ok(mut file) = File::open(entry.path()) {
+    if let Ok(mut file) = open_regular_file(&entry.path()) {
         let mut hasher = sha1::Sha1::new();
         if io::copy(&mut file, &mut hasher).is_ok() {
             let hash = hasher.finalize();
@@ -698,7 +736,7 @@ pub fn get_sha1_file_hash(entry: &DirEntry) -> String {
 }
 
 pub fn get_sha256_file_hash(entry: &DirEntry) -> String {
-    if let Ok(mut file) = File::open(entry.path()) {
+    if let Ok(mut file) = open_regular_file(&entry.path()) {
         let mut hasher = sha2::Sha256::new();
         if io::copy(&mut file, &mut hasher).is_ok() {
             let hash = hasher.finalize();
@@ -710,7 +748,7 @@ pub fn get_sha256_file_hash(entry: &DirEntry) -> String {
 }
 
 pub fn get_sha512_file_hash(entry: &DirEntry) -> String {
-    if let Ok(mut file) = File::open(entry.path()) {
+    if let Ok(mut file) = open_regular_file(&entry.path()) {
         let mut hasher = sha2::Sha512::new();
         if io::copy(&mut file, &mut hasher).is_ok() {
             let hash = hasher.finalize();
@@ -722,7 +760,7 @@ pub fn get_sha512_file_hash(entry: &DirEntry) -> String {
 }
 
 pub fn get_sha3_512_file_hash(entry: &DirEntry) -> String {
-    if let Ok(mut file) = File::open(entry.path()) {
+    if let Ok(mut file) = open_regular_file(&entry.path()) {
         let mut hasher = sha3::Sha3_512::new();
         if io::copy(&mut file, &mut hasher).is_ok() {
             let hash = hasher.finalize();
